@@ -736,9 +736,9 @@ def eq2sdss(ra_in, dec_in, dtype="f8"):
     # generate clambda, ceta
     # do things in place to save memory
 
-    # clambda = -arcsin( x ) (not a copy clambda=x)
-    arcsin(x, x)
-    clambda = x
+    # clambda = -arcsin( x ), computed with arctan2 because arcsin loses
+    # ~1e-7 degree near the survey poles
+    clambda = arctan2(x, np.sqrt(y * y + z * z))
     clambda *= -1
 
     arctan2(z, y, z)
@@ -798,7 +798,8 @@ def sdss2eq(clambda_in, ceta_in, dtype="f8"):
     z = sin(ceta + _sdsspar["etapole"]) * cos(clambda)
 
     ra = arctan2(y, x) + _sdsspar["node"]
-    dec = arcsin(z)
+    # arctan2 rather than arcsin(z): arcsin loses ~1e-7 degree near the poles
+    dec = arctan2(z, np.sqrt(x * x + y * y))
 
     ra *= R2D
     dec *= R2D
